@@ -1,0 +1,12 @@
+//go:build verif
+// +build verif
+
+package node
+
+import "github.com/Oneledger/protocol/data/keys"
+
+// NewVerifContext builds a node Context from in-memory keys (the public constructor
+// reads key files from disk). Only compiled with -tags verif.
+func NewVerifContext(name string, priv, privval, ecdsa keys.PrivateKey) *Context {
+	return &Context{NodeName: name, privateKey: priv, privval: privval, ecdsaPrivVal: ecdsa}
+}
